@@ -507,7 +507,36 @@ def _bindings(leaf, name):
         elif isinstance(node, (ast.For, ast.comprehension)):
             if any(isinstance(n, ast.Name) and n.id == name
                    for n in ast.walk(node.target)):
-                out.append(node.iter)
+                itr = node.iter
+                # positional binding through zip(...) / enumerate(...)
+                if isinstance(node.target, ast.Tuple) and isinstance(
+                        itr, ast.Call) and call_name(itr) == 'zip' and \
+                        len(itr.args) == len(node.target.elts):
+                    for elt, arg in zip(node.target.elts, itr.args):
+                        if any(isinstance(n, ast.Name) and n.id == name
+                               for n in ast.walk(elt)):
+                            out.append(arg)
+                elif isinstance(node.target, ast.Tuple) and isinstance(
+                        itr, ast.Call) and call_name(itr) == 'enumerate' \
+                        and len(node.target.elts) == 2 and itr.args:
+                    if any(isinstance(n, ast.Name) and n.id == name
+                           for n in ast.walk(node.target.elts[1])):
+                        out.append(itr.args[0])
+                else:
+                    out.append(itr)
+        elif isinstance(node, ast.AugAssign) and isinstance(
+                node.target, ast.Name) and node.target.id == name:
+            out.append(node.value)
+        elif isinstance(node, (ast.Assign, ast.AugAssign)):
+            # name[<index>] = value : what the index and the value read
+            tgts = node.targets if isinstance(node, ast.Assign) else \
+                [node.target]
+            for tgt in tgts:
+                if isinstance(tgt, ast.Subscript) and isinstance(
+                        tgt.value, ast.Name) and tgt.value.id == name:
+                    out.append(tgt.slice)
+                    if not isinstance(node.value, ast.Constant):
+                        out.append(node.value)
     return out
 
 
@@ -856,13 +885,27 @@ def check_hl_wrap(ctx):
     zips = [n for n in ast.walk(fmt.node) if isinstance(n, ast.Call) and
             call_name(n) == 'zip']
     good = None
+    colpar = fmt.params[1] if len(fmt.params) >= 3 else 'columns'
+    hlpar = fmt.params[2] if len(fmt.params) >= 3 else 'highlights'
     for zipc in zips:
-        if len(zipc.args) == 2 and all(isinstance(a, ast.Call) and
-                                       call_name(a) == 'transpose'
-                                       for a in zipc.args):
+        if len(zipc.args) != 2:
+            continue
+        one, two = zipc.args
+        if not (colpar in txt(one) and (hlpar in txt(two) or isinstance(
+                two, (ast.Call, ast.Name)))):
+            continue
+        walk_one = call_name(one) if isinstance(one, ast.Call) else None
+        walk_two = call_name(two) if isinstance(two, ast.Call) else None
+        if walk_one == 'transpose' and walk_two == 'transpose':
             args = [txt(a.args[0]) for a in zipc.args]
-            good = args == [fmt.params[1], fmt.params[2]] if len(
-                fmt.params) >= 3 else None
+            good = args == [colpar, hlpar]
+        elif walk_one is not None and walk_two is not None and \
+                walk_one != walk_two and 'transpose' in (walk_one,
+                                                         walk_two):
+            # the cells are walked by one traversal (np.nditer: memory
+            # order) and their flags by another: for arrays that are not
+            # C-contiguous the marks land on the wrong cells
+            good = False
     ctx.decide('HL-WRAP', fmt, 'format_columns: rows and highlight rows are '
                'transposed alike and zipped in that order', good,
                at=fmt.where())
@@ -1056,3 +1099,53 @@ def check_len_aligned(ctx):
     ctx.stats['len_aligned_sites'] = n_sites
     ctx.floor('LEN-ALIGNED', n_dec, 2, 'highlight / column pairs with '
               'linear lengths')
+
+
+# ------------------------------------------------------------- ROW-SELECT --
+
+PER_BIN_VERDICT = {'oracles', 'equal', 'approx_equal', 'dict_res',
+                   'rejected_null_hyp', 'only_failed_comparisons'}
+STATISTIC_NAMES = {'tstud', 'pvalue', 'threshold', 'alpha', 'delta',
+                   'chi2', 'chi2_per_ndf', 'alphas_i'}
+
+
+def check_row_select(ctx):
+    '''Detailed tables that show only some bins select them with the SAME
+    per-bin verdict that drives the highlights (oracles(), equal, ...): a
+    selection re-derived from the statistic (|t| >= threshold ...) disagrees
+    with the oracles on undefined bins (NaN compares false both ways), so
+    failing bins drop out of the table.'''
+    program = ctx.program
+    mod = program.module(TREPR)
+    n = 0
+    for func in mod.functions.values():
+        if func.parent is not None or not func.params or \
+                func.params[0] != 'result':
+            continue
+        selectors = []
+        for node in walk_local(func.node):
+            if isinstance(node, ast.Call) and call_name(node) in (
+                    'where', 'nonzero', 'flatnonzero', 'argwhere') and \
+                    node.args:
+                selectors.append(node.args[0])
+        seen = set()
+        for sel in selectors:
+            key = txt(sel)
+            if key in seen:
+                continue
+            seen.add(key)
+            n += 1
+            from_verdict = _derives_from_family(func, sel, PER_BIN_VERDICT)
+            from_stat = _derives_from_family(func, sel, STATISTIC_NAMES)
+            ctx.decide('ROW-SELECT', func,
+                       f'{func.name}: rows selected where `{key[:50]}`',
+                       True if from_verdict else False if from_stat
+                       else None, at=func.where(sel),
+                       detail='the shown bins are chosen by a criterion '
+                              're-computed from the statistic, the '
+                              'highlights come from the oracles: a bin with '
+                              'an undefined statistic fails the test but is '
+                              'left out of the table'
+                       if not from_verdict and from_stat else None)
+    ctx.floor('ROW-SELECT', n, 1, 'row selectors (np.where) in the detailed '
+              'tables')
